@@ -132,6 +132,15 @@ class Ctx:
         A worker exception is a harness error."""
         tasks = list(tasks)
         jobs = min(jobs or NCPU, max(1, len(tasks)))
+        t0 = time.time()
+        try:
+            return self._pmap(fn, tasks, jobs)
+        finally:
+            if os.environ.get("VERIF_TIMING"):
+                sys.stderr.write(f"  [pmap {fn.__module__}.{fn.__name__}: {len(tasks)} tasks, "
+                                 f"{time.time() - t0:.1f}s]\n")
+
+    def _pmap(self, fn, tasks, jobs):
         if jobs == 1 or os.environ.get("VERIF_SERIAL"):
             return [fn(t) for t in tasks]
         mpctx = multiprocessing.get_context("fork")
@@ -177,7 +186,10 @@ class Ctx:
             "wall_s": round(wall, 2),
             "violations": nviol,
         }
-        d = os.path.join(VERIF, "evidence")
+        # runs pointed at a scratch copy (mutant demonstrations) must not
+        # overwrite the evidence of /repo
+        d = os.path.join(VERIF, "evidence") if os.path.abspath(REPO) == "/repo" else \
+            os.path.join(VERIF, "replays", "_scratch_evidence")
         os.makedirs(d, exist_ok=True)
         tmp = os.path.join(d, f".{self.prop}.json.tmp")
         with open(tmp, "w") as f:
